@@ -127,12 +127,13 @@ def to_py(v, B, rev=False):
     return v
 
 
-def build(G, style="kw", rev=False, submit_root=False, extra=None):
+def build(G, style="kw", rev=False, submit_root=False, extra=None, init=True):
     """Builds the graph.  Task nodes other than the root are submitted (DRY_RUN) as soon as they are complete,
     which the API requires before they can be used as values.  `extra(label, obj, B)` is called on every node
     right after construction (used by C02 to apply object-level neutral edits)."""
     from experimaestro import setmeta
-    ensure_init()
+    if init:
+        ensure_init()
     B = Built()
     root = G["root"]
     order, back = order_nodes(G, root)
